@@ -96,6 +96,9 @@ class Inv:
         self.types = types or {}
         self.modifies = modifies
         self.result_alias = result_alias
+        self.call_native = call_native
+        self.gen = gen
+        self.bounded = bounded
         self.props = props
 
 
@@ -121,6 +124,9 @@ class Contract:
         unroll=None,
         modifies=None,
         result_alias=None,
+        call_native=None,
+        gen=None,
+        bounded=None,
     ):
         self.target = target
         self.sig = dict(sig)
@@ -143,6 +149,9 @@ class Contract:
         self.unroll = unroll
         self.modifies = modifies
         self.result_alias = result_alias
+        self.call_native = call_native
+        self.gen = gen
+        self.bounded = bounded
 
 
 def contract(target, **kw):
